@@ -65,6 +65,10 @@ class AddImplicitCastVisitor(Visitor.DefaultVisitor):
 
         arguments = []
         for p in node.GetArguments():
+            # An argument can be a call, constructor or operation which needs
+            # conversions of its own
+            self.v_Generic(p, ctx)
+
             # If this is something like float4 (float2, int, int), we want to
             # cast int->float but float2 should not be casted
             argumentType = p.GetType().GetComponentType()
@@ -87,6 +91,10 @@ class AddImplicitCastVisitor(Visitor.DefaultVisitor):
 
         arguments = []
         for arg, expectedType in zip(node.GetArguments(), argumentTypes):
+            # An argument can be a call, constructor or operation which needs
+            # conversions of its own
+            self.v_Generic(arg, ctx)
+
             # This works for calls (same as above for construct primitive) as
             # non-primitive types return themselves in GetComponentType()
             argumentType = arg.GetType().GetComponentType()
